@@ -7,6 +7,13 @@ import sys
 import traceback
 
 
+CASE_TIMEOUT_S = 60
+
+
+class _CaseTimeout(BaseException):
+    pass
+
+
 class Recorder:
     def __init__(self, name, rule, bound):
         self.name = name
@@ -18,8 +25,11 @@ class Recorder:
         self.samples = []
         self.per_clause = {}
         self.max_viol = 120
+        self.hangs = 0            # cases that did not come back; after 12 of them the remaining cases of the run are skipped
 
     def case(self, clause, ok, inp, expected=None, observed=None, nontrivial_key=None, finding_key=None):
+        if not ok and 'no result' in str(observed):
+            self.hangs += 1
         self.evaluations += 1
         self.per_clause[clause] = self.per_clause.get(clause, 0) + 1
         if nontrivial_key is not None:
@@ -36,10 +46,32 @@ class Recorder:
 
     def guarded(self, clause, inp, fn, finding_key_fn=None):
         """run fn() -> (ok, expected, observed, nontrivial_key); an unexpected exception is a violation of the clause"""
+        if self.hangs >= 12:
+            return True           # the run already has a dozen hanging cases to report: do not wait for thousands more
+        # watchdog: a case that does not come back (a changed function that loops forever) is a violation of its clause, not a hung check
+        import signal
+
+        def _late(*_):
+            raise _CaseTimeout()
+        prev = None
+        try:
+            prev = signal.signal(signal.SIGALRM, _late)
+            signal.setitimer(signal.ITIMER_REAL, CASE_TIMEOUT_S)
+        except (ValueError, AttributeError):
+            prev = None
         try:
             ok, exp, obs, ntk = fn()
+        except _CaseTimeout:
+            ok, exp, obs, ntk = False, 'a result', f'no result within {CASE_TIMEOUT_S} s (the call does not return)', None
         except Exception as e:  # noqa
             ok, exp, obs, ntk = False, 'no exception', f'{type(e).__name__}: {e}', None
+        finally:
+            try:
+                signal.setitimer(signal.ITIMER_REAL, 0)
+                if prev is not None:
+                    signal.signal(signal.SIGALRM, prev)
+            except (ValueError, AttributeError):
+                pass
         fk = None
         if not ok and finding_key_fn:
             try:
